@@ -225,7 +225,7 @@ func runC08(rc *RunCtx, i int) {
 	case "timeout":
 		ctx, cancel = context.WithTimeout(context.Background(), deadline)
 	case "timeout-long":
-		ctx, cancel = context.WithTimeout(context.Background(), 60*time.Second)
+		ctx, cancel = context.WithTimeout(context.Background(), core.Patience)
 	case "cancel":
 		c, cf := context.WithCancel(context.Background())
 		ctx, cancel = c, cf
